@@ -31,6 +31,7 @@ DOCS = [
     ("variable-argument", "subscription S($n: Int = 2) { t: tick(n: $n) { id a } }", {"n": 5}),
     ("variable-default", "subscription S($n: Int = 2) { t: tick(n: $n) { id a } }", {}),
     ("scalar-root", "subscription S { count }", None),
+    ("live-object-source", "subscription S { tick { id a name } }", None),
     ("three-fragment-levels", "subscription S { ...F1 } fragment F1 on Subscription { ...F2 } fragment F2 on Subscription { ... on Subscription { tick { id a } } }", None),
     ("four-named-fragments", "subscription S($n: Int = 2) { ...G1 } fragment G1 on Subscription { ...G2 } fragment G2 on Subscription { ...G3 } "
                              "fragment G3 on Subscription { ...G4 } fragment G4 on Subscription { t: tick(n: $n) { id } }", {}),
@@ -129,6 +130,7 @@ def run_shard(item):
             def make_task(s):
                 scn.reset()
                 scn.source_events = events
+                scn.live_object = label.startswith("live-object")
                 scn.sched = s
                 harness.CURRENT[0] = scn
                 return consume(engine, text, op, variables, scn)
